@@ -15,7 +15,9 @@ import common
 from common import Check
 import population
 
-THEOREMS = ["Nmfu.C13_expansion_equivalent"]
+THEOREMS = ["Nmfu.C13_expansion_equivalent",
+            # the binding mechanism, name by name (NmfuProps/C13Lookup.lean)
+            "Nmfu.C13_lookup_is_textual", "Nmfu.C13_lookup_transparent", "Nmfu.C13_lookup_innermost_wins", "Nmfu.C13_parameter_shadows"]
 
 KINDS = ["macro", "hook", "out", "match", "expr", "loop", "finishcode", "yieldcode"]
 
@@ -263,7 +265,7 @@ def work(job):
 
 def main():
     ck = Check("C13", "translation_validation")
-    ck.lean_obligations("NmfuProps.C13", THEOREMS)
+    ck.lean_obligations("NmfuProps", THEOREMS)
     n = 300 if ck.tier == "quick" else 5000
     with mp.Pool(min(14, os.cpu_count() or 4)) as pool:
         results = pool.map(work, [(ck.seed, k) for k in range(-len(fixed_pairs()), n)], chunksize=8)
@@ -295,9 +297,18 @@ def main():
             st["bad_calls_diagnosed"] += 1
         else:
             ck.report(f"bad-call-not-diagnosed/{o.kind}", f"wrong argument kind / count is not a diagnosed error: outcome {o.kind} {o.msg[:120]}", {"program": src})
+    # the lookup itself: the real `_lookup_named_entity` on constructed stacks vs the Lean mirror
+    import c13_lookup
+    from modeldrv import Model
+    n_look, bad, hist = c13_lookup.run(Model(), random.Random(ck.seed + 13), 4000 if ck.tier == "quick" else 60000)
+    st["lookups_compared"] = n_look
+    st["lookup_outcomes"] = hist
+    for b in bad[:5]:
+        ck.report(f"lookup/{b['kind']}/{b['implementation'].split()[0]}-vs-{b['model'].split()[0]}",
+                  f"argument lookup of {b['name']} as {b['kind']}: implementation says {b['implementation']}, the model (innermost frame that mentions the name decides) says {b['model']}", b)
     ck.finish({"programs": st["both_accepted"], "disagreements_checked": st["pairs"] + st["bad_calls"],
                "evaluations": st["pairs"] + st["bad_calls"], "distinct_nontrivial": len(distinct),
-               "rule": "generated programs with 1-3 macros over all 8 argument kinds, nested calls and pass-through arguments, paired with their expansion by an independent expander; plus wrong-kind / wrong-arity calls; distinct by source",
+               "rule": "generated programs with 1-3 macros over all 8 argument kinds, nested calls and pass-through arguments, paired with their expansion by an independent expander; plus wrong-kind / wrong-arity calls; plus the argument lookup called directly on random bound-argument stacks against the Lean mirror; distinct by source",
                "stats": st})
 
 
